@@ -20,6 +20,23 @@ fn main() {
     if args.len() < 3 {
         usage();
     }
+    if args[1] == "dbg-clone" {
+        use rml_rtmp::chunk_io::ChunkDeserializer;
+        let mut d = ChunkDeserializer::new();
+        let base = alloc::begin();
+        let c0 = d.clone();
+        println!("clone of fresh: {} bytes", alloc::peak_since(base));
+        let _ = d.get_next_message(&[3, 0, 0, 1, 0, 0, 2, 8, 1, 0, 0, 0, 0xAB]);
+        let base = alloc::begin();
+        let c1 = d.clone();
+        println!("clone after partial token: {} bytes", alloc::peak_since(base));
+        let _ = d.get_next_message(&[0xAB]);
+        let base = alloc::begin();
+        let c2 = d.clone();
+        println!("clone after complete message: {} bytes", alloc::peak_since(base));
+        drop((c0, c1, c2));
+        std::process::exit(0);
+    }
     if args[1] == "case" {
         util::silence_panics();
         let code = match args[2].as_str() {
